@@ -99,9 +99,17 @@ Send ==
   /\ hist' = Append(hist, [a |-> "send"])
   /\ UNCHANGED <<sess, open, maxTs, wmCur, wmSent, wmChan, twm, emitted>>
 
-Quiet == tpc = "idle" /\ wmChan = <<>>
+\* Watermark.update (ticker, every WatermarkInterval): re-send a watermark that did not fit into the full channel.
+\* It takes only the watermark's own lock, so it may interleave anywhere.
+Tick ==
+  /\ wmCur > wmSent /\ Len(wmChan) < ChanCap
+  /\ wmChan' = Append(wmChan, wmCur) /\ wmSent' = wmCur
+  /\ hist' = Append(hist, [a |-> "tick"])
+  /\ UNCHANGED <<sess, open, maxTs, wmCur, tpc, twm, pend, out, emitted>>
+
+Quiet == tpc = "idle" /\ wmChan = <<>> /\ wmSent = wmCur
 Complete == Len(emitted) = MaxEv /\ Quiet
-Next == (\E k \in Keys, ts \in 0..MaxTs : Add(k, ts)) \/ Trig \/ Send
+Next == (\E k \in Keys, ts \in 0..MaxTs : Add(k, ts)) \/ Trig \/ Send \/ Tick
 Spec == Init /\ [][Next]_vars
 
 (* ======================= contract monitor (Abs, C10) ===================== *)
